@@ -172,6 +172,29 @@ Theorem C15_union :
 Proof. exact union_correct. Qed.
 Print Assumptions C15_union.
 
+(* The union result is itself a stable bijection: in it equal terms have equal ids (structural identity of
+   quoted triples included), re-encoding a decoded term returns its id without changing anything, every id
+   of the left operand still denotes the same term, the quoted store's two maps are mutually inverse, and
+   no lexical quad is stored twice (number of stored quads = number of distinct lexical quads). *)
+Theorem C15_union_result_identity :
+  forall a b u, WF a -> WF b -> union a b = Ok u ->
+    (forall i j t, decode_any (dst u) i = Ok t -> decode_any (dst u) j = Ok t -> i = j) /\
+    (forall i t, decode_any (dst u) i = Ok t -> encode_term (dst u) t = Ok (dst u, i)) /\
+    (forall i t, decode_any (dst a) i = Ok t -> decode_any (dst u) i = Ok t) /\
+    (forall k i, q_get (sq (dst u)) k = Some i <-> q_decode (sq (dst u)) i = Some k) /\
+    NoDup (den_quads u).
+Proof. exact union_result_identity. Qed.
+Print Assumptions C15_union_result_identity.
+
+(* The exhaustion guard, whatever value next_id has: a term the dictionary does not know is refused
+   (the assert) exactly when next_id >= 2^31, and otherwise gets the id next_id < 2^31. *)
+Theorem C15_exhaustion_guard :
+  forall d x, d_get d x = None ->
+    (d_encode d x = Err Exhausted <-> QBIT <= nxt d) /\
+    (forall d' i, d_encode d x = Ok (d', i) -> i = nxt d /\ i < QBIT /\ nxt d' <= QBIT).
+Proof. exact d_encode_guard. Qed.
+Print Assumptions C15_exhaustion_guard.
+
 (* probability seeds: the union binds a lexical triple to the right operand's seed if it has one,
    otherwise to the left operand's *)
 Theorem C15_union_seeds :
